@@ -218,19 +218,52 @@ fn check_datadog(batch: &[Rec], reqs: &[HttpReq]) -> Vec<Viol> {
         out.push(v("dd-shape", "body is not an array of traces"));
         return out;
     };
-    if traces.len() != 1 {
-        out.push(v("dd-shape", format!("{} traces in the outer array, expected 1", traces.len())));
-        return out;
+    // v0.4: an array of traces, each an array of spans. How the reporter distributes the spans
+    // over inner arrays and in which order is not claimed; every record must be there once.
+    let mut spans: Vec<&MVal> = vec![];
+    for t in traces {
+        let MVal::Arr(ss) = t else {
+            out.push(v("dd-shape", "trace is not an array of spans"));
+            return out;
+        };
+        spans.extend(ss.iter());
     }
-    let MVal::Arr(spans) = &traces[0] else {
-        out.push(v("dd-shape", "trace is not an array of spans"));
-        return out;
-    };
     if spans.len() != batch.len() {
         out.push(v("dd-span-count", format!("{} spans transmitted for {} records", spans.len(), batch.len())));
         return out;
     }
-    for (i, (r, s)) in batch.iter().zip(spans.iter()).enumerate() {
+    // pair every record with a span: the one at its own position if its identifying fields
+    // agree, otherwise the first unused span with the record's ids, name and times
+    let ident = |s: &MVal| -> Option<(i128, i128, i128, String, i128, i128)> {
+        let MVal::Map(m) = s else { return None };
+        let int = |k: &str| match mget(m, k) {
+            Some(MVal::Int(x)) => Some(*x),
+            _ => None,
+        };
+        let name = match mget(m, "name") {
+            Some(MVal::Str(x)) => x.clone(),
+            _ => return None,
+        };
+        Some((int("trace_id")?, int("span_id")?, int("parent_id")?, name, int("start")?, int("duration")?))
+    };
+    let want_ident = |r: &Rec| (r.trace_lo as i128, r.span as i128, r.parent as i128, r.name.clone(), r.begin as i128, r.dur as i128);
+    let mut used = vec![false; spans.len()];
+    let mut pairing: Vec<usize> = Vec::with_capacity(batch.len());
+    for (i, r) in batch.iter().enumerate() {
+        let w = want_ident(r);
+        let at = if !used[i] && ident(spans[i]).as_ref() == Some(&w) {
+            Some(i)
+        } else {
+            (0..spans.len()).find(|j| !used[*j] && ident(spans[*j]).as_ref() == Some(&w))
+        };
+        // no span with these fields: compare with the one at the same position (or any unused
+        // one) so that the report names the field that differs
+        let at = at.or_else(|| if !used[i] { Some(i) } else { (0..spans.len()).find(|j| !used[*j]) }).unwrap();
+        used[at] = true;
+        pairing.push(at);
+    }
+    for (i, r) in batch.iter().enumerate() {
+        let s = spans[pairing[i]];
         let MVal::Map(m) = s else {
             out.push(v("dd-shape", format!("span {} is not a map", i)));
             continue;
@@ -378,7 +411,12 @@ enum Case {
     Jaeger { batch: Vec<Rec> },
     Datadog { batch: Vec<Rec> },
     Otel { batch: Vec<Rec> },
-    JaegerPlan { plan: Plan },
+    JaegerPlan {
+        plan: Plan,
+        /// batches sent through the same reporter before the checked one
+        #[serde(default)]
+        prior: Vec<Plan>,
+    },
 }
 
 struct Env {
@@ -390,7 +428,10 @@ struct Env {
 fn run_case(env: &Env, c: &Case) -> Outcome {
     match c {
         Case::Jaeger { batch } => run_jaeger(&env.udp, batch, "C19"),
-        Case::JaegerPlan { plan } => run_jaeger(&env.udp, &realise(plan), "C20"),
+        Case::JaegerPlan { plan, prior } => {
+            let pr: Vec<Vec<Rec>> = prior.iter().map(realise).collect();
+            run_jaeger_seq(&env.udp, &pr, &realise(plan), "C20")
+        }
         Case::Datadog { batch } => {
             while env.http_rx.try_recv().is_ok() {}
             let mut rep = fastrace_datadog::DatadogReporter::new(format!("127.0.0.1:{}", env.http_port).parse().unwrap(), "svc", "res", "web");
@@ -428,7 +469,25 @@ fn run_case(env: &Env, c: &Case) -> Outcome {
 fn case_strategy(variant: &str) -> BoxedStrategy<Case> {
     match variant {
         "jaeger" => batch_c19().prop_map(|batch| Case::Jaeger { batch }).boxed(),
-        "datadog" => prop_oneof![8 => proptest::collection::vec(rec(300), 0..10), 1 => proptest::collection::vec(rec(300), 10..120)]
+        "datadog" => prop_oneof![
+            8 => proptest::collection::vec(rec(300), 0..10).boxed(),
+            1 => proptest::collection::vec(rec(300), 10..120).boxed(),
+            // siblings of one trace that start in the same tick (coarse clocks, zero durations)
+            3 => (proptest::collection::vec(rec(100), 2..9), any::<u64>(), 0u64..(1u64 << 62), prop_oneof![Just(0u64), 0u64..5000], any::<u16>())
+                .prop_map(|(mut v, trace, begin, dur, mask)| {
+                    for (i, r) in v.iter_mut().enumerate() {
+                        if i < 2 || mask & (1 << (i % 16)) != 0 {
+                            r.trace_lo = trace;
+                            r.begin = begin;
+                            if i < 2 || mask & (1 << ((i + 5) % 16)) != 0 {
+                                r.dur = dur;
+                            }
+                        }
+                    }
+                    v
+                })
+                .boxed(),
+        ]
             .prop_map(|batch| Case::Datadog { batch })
             .boxed(),
         "otel" => prop_oneof![
@@ -445,7 +504,17 @@ fn case_strategy(variant: &str) -> BoxedStrategy<Case> {
         ]
         .prop_map(|batch| Case::Otel { batch })
         .boxed(),
-        _ => plan_strategy().prop_map(|plan| Case::JaegerPlan { plan }).boxed(),
+        _ => {
+            // a reporter object sees many batches: 0-2 earlier ones, often small and heavy
+            let small_heavy = prop_oneof![
+                3 => proptest::collection::vec(prop_oneof![3 => (Just(3u8), any::<u16>()), 1 => (Just(0u8), any::<u16>()), 1 => (Just(2u8), any::<u16>())], 1..4),
+                1 => proptest::collection::vec((Just(0u8), any::<u16>()), 1..300),
+            ]
+            .prop_map(|items| Plan { items, straddle: 0 });
+            (plan_strategy(), prop_oneof![3 => Just(vec![]).boxed(), 2 => proptest::collection::vec(small_heavy, 1..3).boxed()])
+                .prop_map(|(plan, prior)| Case::JaegerPlan { plan, prior })
+                .boxed()
+        }
     }
 }
 
@@ -456,7 +525,7 @@ fn nontrivial(c: &Case) -> bool {
                 && batch.iter().any(|r| r.span >> 63 == 1 || r.trace_hi >> 63 == 1 || r.parent >> 63 == 1 || r.trace_lo >> 63 == 1)
                 && batch.iter().any(|r| !r.events.is_empty() || !r.name.is_ascii() || r.props.iter().any(|(k, v)| !k.is_ascii() || !v.is_ascii()))
         }
-        Case::JaegerPlan { plan } => {
+        Case::JaegerPlan { plan, .. } => {
             let recs = realise(plan);
             let total = reference_emit_batch(SERVICE, &recs).len();
             let n = plan.items.len();
@@ -470,7 +539,7 @@ fn label(c: &Case) -> String {
         Case::Jaeger { batch } => format!("jaeger batch of {}", bucket(batch.len())),
         Case::Datadog { batch } => format!("datadog batch of {}", bucket(batch.len())),
         Case::Otel { batch } => format!("otel batch of {}", bucket(batch.len())),
-        Case::JaegerPlan { plan } => {
+        Case::JaegerPlan { plan, .. } => {
             let recs = realise(plan);
             let total = reference_emit_batch(SERVICE, &recs).len();
             let over = plan.items.iter().filter(|(k, _)| *k == 3).count();
@@ -581,7 +650,7 @@ fn replay(args: &[String]) -> i32 {
     let vj: serde_json::Value = serde_json::from_str(&std::fs::read_to_string(file).unwrap()).unwrap();
     let c: Case = if let Some(hex) = vj.get("bytes_hex").and_then(|h| h.as_str()) {
         let bytes: Vec<u8> = (0..hex.len() / 2).map(|i| u8::from_str_radix(&hex[2 * i..2 * i + 2], 16).unwrap()).collect();
-        Case::JaegerPlan { plan: plan_from_bytes(&bytes) }
+        Case::JaegerPlan { plan: plan_from_bytes(&bytes), prior: vec![] }
     } else {
         serde_json::from_value(vj["program"].clone()).expect("case")
     };
